@@ -34,7 +34,9 @@ var (
 	c20Removes int
 )
 
-var c20ErrNotExist = errors.New("stub: file does not exist")
+// a missing path is reported the way package os reports it: an error that is
+// fs.ErrNotExist under errors.Is and under os.IsNotExist
+var c20ErrNotExist error = &fs.PathError{Op: "stub", Path: "?", Err: fs.ErrNotExist}
 var c20ErrNotEmpty = errors.New("stub: directory not empty")
 
 func c20Find(path string) (parent, n *c20Node) {
@@ -99,7 +101,7 @@ func ZZStub_os_Stat(name string) (os.FileInfo, error) {
 	return nil, nil
 }
 
-func ZZStub_os_IsNotExist(err error) bool { return err == c20ErrNotExist }
+func ZZStub_os_IsNotExist(err error) bool { return err != nil && errors.Is(err, fs.ErrNotExist) }
 
 func c20Owned(name string) bool {
 	return strings.HasSuffix(name, GeneratedFileSuffix) || name == c20Manifest
